@@ -807,6 +807,9 @@ def _positive_examples(rep):
     from . import lazy_rule as _lz
     _lz.positive_examples()
     from . import memo_rule as _mrp
+    sh_w = {r_["fi"].name for r_ in _mrp.shallow_copy_writes(pp)}
+    if sh_w != {"marked_cols"}:
+        raise AnalysisError(f"positive example: the shallow-copy pattern flagged {sorted(sh_w)}, expected ['marked_cols']")
     cps = {r_["fi"].name for r_ in _mrp.stale_cached_properties(pp)}
     if cps != {"grid_after_fit"}:
         raise AnalysisError(f"positive example: the cached_property pattern flagged {sorted(cps)}, expected ['grid_after_fit']")
@@ -892,6 +895,9 @@ def run(project: Project, rep, tier: str):
     for r_ in _mr.setter_bypasses(project):
         rep.refuted("PU-CACHE", r_["fi"], r_["node"], r_["why"] + " — the result depends on what was asked of the source object before",
                     construct=f"{r_['fi'].qualname}: setter of {r_['prop']} bypassed")
+    for r_ in _mr.shallow_copy_writes(project):
+        rep.refuted("PU-ALIAS", r_["fi"], r_["node"], r_["why"] + " — a method that promises a modified copy changes the object it was called on",
+                    construct=f"{r_['fi'].qualname}: in-place write into shared {r_['attr']}")
     for r_ in _mr.stale_cached_properties(project):
         rep.refuted("PU-CACHE", r_["fi"], r_["node"], r_["why"] + " — the result depends on the calls made before",
                     construct=f"{r_['fi'].qualname}: cached_property over {r_['attr']}")
